@@ -64,6 +64,21 @@ def oracle(ctx, specs, k, rnd, dups):
             return ctx.fail("C04/order-or-multiplicity-dependent", [specs, k, pres],
                             f"{show(T)} for {specs} but {show(T2)} for presentation {pres} (k={k})")
         ctx.label("presentations")
+        # the merge over call traces (what stub generation runs): one trace per value, in the two orders
+        got = []
+        for order in (specs, pres):
+            try:
+                got.append(tinfer.infer_via_traces([vals.build(s) for s in order], k))
+            except Exception as e:
+                return ctx.fail(f"C04/inference-raises:{type(e).__name__}", [specs, k, order, "via-traces"], "merging the traces' types: " + repr(e))
+        for pos in range(3):
+            for s, v in zip(specs, vs):
+                if not conforms(v, got[0][pos]):
+                    return ctx.fail("C04/value-not-admitted", [specs, k, "via-traces"],
+                                    f"value {s} not a member of {show(got[0][pos])} merged over the call traces (position {pos}, k={k})")
+            if canon(got[0][pos]) != canon(got[1][pos]):
+                return ctx.fail("C04/order-or-multiplicity-dependent", [specs, k, pres, "via-traces"],
+                                f"merged over call traces (position {('argument', 'return', 'yield')[pos]}): {show(got[0][pos])} for {specs} but {show(got[1][pos])} for presentation {pres} (k={k})")
 
 
 def shard(ctx):
@@ -81,7 +96,13 @@ def run(ctx):
 def replay(ctx, case):
     specs, k = case[0], case[1]
     oracle(ctx, specs, k, random.Random(0), [2, 1, 3, 1, 2, 1, 1, 2])
-    if len(case) > 2 and not isinstance(case[2], str):
+    if len(case) > 3 and case[3] == "via-traces" and not isinstance(case[2], str):
+        a = tinfer.infer_via_traces([vals.build(s) for s in specs], k)
+        b = tinfer.infer_via_traces([vals.build(s) for s in case[2]], k)
+        for pos in range(3):
+            if canon(a[pos]) != canon(b[pos]):
+                ctx.fail("C04/order-or-multiplicity-dependent", case, f"{show(a[pos])} vs {show(b[pos])}")
+    elif len(case) > 2 and not isinstance(case[2], str):
         T = tinfer.infer([vals.build(s) for s in specs], k)
         T2 = tinfer.infer([vals.build(s) for s in case[2]], k)
         if canon(T) != canon(T2):
